@@ -1051,6 +1051,11 @@ def scan_globals(repo_src=DEFAULT_SRC, modules=None):
     prog = Program(repo_src, modules)
     fas = _analyse(prog, modules)
     out = []
+    rng_names = {}   # module -> names imported from numpy.random / random (the process-global generators)
+    for m, tree in prog.trees.items():
+        for node in ast.walk(tree):
+            if isinstance(node, ast.ImportFrom) and node.module in ("numpy.random", "random"):
+                rng_names.setdefault(m, set()).update(a.asname or a.name for a in node.names)
     for m in modules:
         tree = prog.trees.get(m)
         if tree is None:
@@ -1141,7 +1146,9 @@ def scan_globals(repo_src=DEFAULT_SRC, modules=None):
                             out.append(GlobalSite(fa.module, fa.qualname, n.lineno, "global_object_write", _r(n)))
                 elif u in ("os.environ.get", "os.getenv"):
                     out.append(GlobalSite(fa.module, fa.qualname, n.lineno, "os_environ_read", _r(n)))
-                elif u in ("importlib.reload", "importlib.import_module", "warnings.simplefilter",
+                elif u in rng_names.get(fa.module, ()) or u.startswith(("numpy.random.", "np.random.", "random.")):
+                    out.append(GlobalSite(fa.module, fa.qualname, n.lineno, "global_rng_use", _r(n)))
+                elif u in ("importlib.reload", "importlib.import_module", "warnings.simplefilter", "warnings.warn",
                            "warnings.filterwarnings", "sys.setrecursionlimit", "numpy.random.seed", "random.seed",
                            "os.chdir", "sys.path.insert", "sys.path.append"):
                     out.append(GlobalSite(fa.module, fa.qualname, n.lineno, "process_state_call", _r(n)))
